@@ -1662,6 +1662,7 @@ class OrdinaryTableRow(TableRow):
                         ending_comments_length += (
                             len(comment) + left_stripped_character_length
                         )
+                        left_stripped_character_length = 0
                         column_definition_comments.append(comment)
 
                     # See if any comments in the form "-- ... \n" exist and remove them if so (there may be 0 ... 1)
@@ -1675,6 +1676,7 @@ class OrdinaryTableRow(TableRow):
                         ending_comments_length += (
                             len(comment) + left_stripped_character_length
                         )
+                        left_stripped_character_length = 0
                         column_definition_comments.append(comment)
 
                 # Initialize a current definition index to validate against later
